@@ -24,6 +24,9 @@ def pC : Path := ⟨[], 3, false⟩      -- m3.koto   (imports itself)
 def pD : Path := ⟨[], 4, false⟩      -- m4.koto   (fails in @main after importing m2)
 def pE : Path := ⟨[], 6, false⟩      -- m6.koto   (re-exports parts of m2 with an unpacking export)
 
+def itm (n : Name) (a : Option Name := none) : Item := { name := n, as_ := a }
+def rf (n : Name) : Ref := { name := n }
+
 /-- m1.koto and m1/main.koto both exist; m2 exports two values, reassigns one locally, has a test and
 a main; m3 imports itself; m4 imports m2 and then fails in `@main` -/
 def fsEx : FS := fun p =>
@@ -31,44 +34,115 @@ def fsEx : FS := fun p =>
   else if p = pAdir then some (.ok [.act (.print 2)])
   else if p = pB then some (.ok [.act (.print 3), .act (.export_ 60 7), .act (.assign 60 8), .act (.export_ 61 9),
       .defTest 70 4 [], .defMain 5 []])
-  else if p = pC then some (.ok [.act (.print 6), .act (.importMods [⟨3, none⟩])])
-  else if p = pD then some (.ok [.act (.print 7), .act (.importMods [⟨2, none⟩]), .defMain 8 [.fail 9]])
-  else if p = pE then some (.ok [.act (.print 10), .act (.importMods [⟨2, none⟩]),
+  else if p = pC then some (.ok [.act (.print 6), .act (.importMods [itm 3])])
+  else if p = pD then some (.ok [.act (.print 7), .act (.importMods [itm 2]), .defMain 8 [.fail 9]])
+  else if p = pE then some (.ok [.act (.print 10), .act (.importMods [itm 2]),
       -- `export k63, {k60, k61 as k62}, _ = 1, m2, 5`
       .act (.assignPat true [.id 63, .mapPat [⟨60, some 60⟩, ⟨61, some 62⟩], .ignored] [.lit 1, .ref 2, .lit 5])])
   else none
 
 def cfgEx : Cfg := { runImportTests := true, hostTests := false }
 
-def opImport (m : Name) : Op := { dir := [], exportTop := false, body := [.act (.importMods [⟨m, none⟩])] }
-def opTry (m : Name) (mk : Nat) : Op := { dir := [], exportTop := false, body := [.act (.tryImport m mk)] }
+def opImport (m : Name) : Op := { dir := [], exportTop := false, body := [.act (.importMods [itm m])] }
+def opTry (m : Name) (mk : Nat) : Op := { dir := [], exportTop := false, body := [.act (.tryImport { name := m, str := true } mk)] }
 
 def outOf (ops : List Op) : Option (List Event) := (finalSt cfgEx fsEx 5 ops init).map (·.out)
 
 /-! ## resolution_order — `name.koto` before `name/main.koto`, relative to the importing file -/
 
-theorem resolution_order (fs : FS) (dir : List Name) (n : Name) :
-    (fs ⟨dir, n, false⟩ ≠ none → findModule fs dir n = some ⟨dir, n, false⟩) ∧
-    (fs ⟨dir, n, false⟩ = none → fs ⟨dir, n, true⟩ ≠ none → findModule fs dir n = some ⟨dir, n, true⟩) ∧
-    (fs ⟨dir, n, false⟩ = none → fs ⟨dir, n, true⟩ = none → findModule fs dir n = none) := by
+theorem normSegs_map_some (dir acc : List Name) : normSegs (dir.map some) acc = acc.reverse ++ dir := by
+  induction dir generalizing acc with
+  | nil => simp [normSegs]
+  | cons d rest ih => simp [normSegs, ih]
+
+theorem norm_canonical (dir : List Name) (n : Name) (b : Bool) :
+    (⟨dir.map some, n, b⟩ : Path).norm = ⟨dir.map some, n, b⟩ := by
+  simp [Path.norm, normSegs_map_some]
+
+theorem norm_idem (p : Path) : p.norm.norm = p.norm := by
+  simp [Path.norm, normSegs_map_some]
+
+/-- `find_module` as it is: in the importing file's directory extended by the path segments of the
+import string, `name.koto` is tried before `name/main.koto` (the file system is asked at the normalised
+path); what is returned is the cache key — normalised only in the `main.koto` branch unless
+`cfg.canonFile` — and the file name keeps only `cfg.stem name` of the module name -/
+theorem resolution_order_general (cfg : Cfg) (fs : FS) (dir : List Name) (r : Ref) :
+    let f : Path := ⟨dir.map some ++ r.segs, cfg.stem r.name, false⟩
+    let d : Path := ⟨dir.map some ++ r.segs, r.name, true⟩
+    (fs f.norm ≠ none → findModule cfg fs dir r = some (if cfg.canonFile then f.norm else f)) ∧
+    (fs f.norm = none → fs d.norm ≠ none → findModule cfg fs dir r = some d.norm) ∧
+    (fs f.norm = none → fs d.norm = none → findModule cfg fs dir r = none) := by
+  intro f d
   refine ⟨?_, ?_, ?_⟩
   · intro h
-    have : (fs ⟨dir, n, false⟩).isSome = true := by
-      cases hh : fs ⟨dir, n, false⟩ with
+    have : (fs f.norm).isSome = true := by
+      cases hh : fs f.norm with
       | none => exact absurd hh h
       | some _ => rfl
-    simp [findModule, this]
+    simp only [findModule]
+    rw [if_pos this]
   · intro h1 h2
-    have : (fs ⟨dir, n, true⟩).isSome = true := by
-      cases hh : fs ⟨dir, n, true⟩ with
+    have : (fs d.norm).isSome = true := by
+      cases hh : fs d.norm with
       | none => exact absurd hh h2
       | some _ => rfl
-    simp [findModule, h1, this]
+    simp only [findModule]
+    rw [if_neg (by rw [h1]; simp), if_pos this]
   · intro h1 h2
-    simp [findModule, h1, h2]
+    simp only [findModule]
+    rw [if_neg (by rw [h1]; simp), if_neg (by rw [h2]; simp)]
+
+/-- the documented rule, for a plain module name (an id or a string without path segments and without
+a dotted suffix): `name.koto` before `name/main.koto` in the importing file's directory -/
+theorem resolution_order (cfg : Cfg) (fs : FS) (dir : List Name) (r : Ref) (hplain : r.segs = [])
+    (hstem : cfg.stem r.name = r.name) :
+    let f : Path := ⟨dir.map some, r.name, false⟩
+    let d : Path := ⟨dir.map some, r.name, true⟩
+    (fs f ≠ none → findModule cfg fs dir r = some f) ∧
+    (fs f = none → fs d ≠ none → findModule cfg fs dir r = some d) ∧
+    (fs f = none → fs d = none → findModule cfg fs dir r = none) := by
+  have h := resolution_order_general cfg fs dir r
+  simp only [hplain, List.append_nil, hstem, norm_canonical] at h
+  intro f d
+  refine ⟨fun hf => ?_, h.2.1, h.2.2⟩
+  rw [h.1 hf]
+  split <;> rfl
 
 -- both exist: the file wins
-example : findModule fsEx [] 1 = some pA := by decide
+example : findModule cfgEx fsEx [] (rf 1) = some pA := by decide
+
+/-- with the repaired `find_module` (`cfg.canonFile`) every cache key is a normalised path, so one
+file has one key and `run_once` counts per file -/
+theorem canonical_keys (cfg : Cfg) (fs : FS) (dir : List Name) (r : Ref) (p : Path)
+    (hc : cfg.canonFile = true) (h : findModule cfg fs dir r = some p) : p.norm = p := by
+  simp only [findModule, hc, if_true] at h
+  split at h
+  · simp only [Option.some.injEq] at h; rw [← h]; exact norm_idem _
+  · split at h
+    · simp only [Option.some.injEq] at h; rw [← h]; exact norm_idem _
+    · cases h
+
+/-- Negation witness (finding F-C18-3): as it is, `find_module` does not normalise the `name.koto`
+branch, so the same file reached under two spellings (`m1` from the root, `'../m1'` from the folder
+`m5/`) has two cache keys and its top level runs twice in one runtime; with `canonFile` it runs once -/
+theorem file_runs_twice_under_two_spellings_witness :
+    let ops : List Op :=
+      [{ dir := [], exportTop := false, body := [.act (.importMods [itm 1])] },
+       { dir := [5], exportTop := false,
+         body := [.act (.importMods [{ name := 1, str := true, segs := [none], as_ := some 60 }])] }]
+    (finalSt cfgEx fsEx 5 ops init).map (fun s => s.out.count (.print 1)) = some 2
+    ∧ (finalSt { cfgEx with canonFile := true } fsEx 5 ops init).map (fun s => s.out.count (.print 1)) = some 1 := by
+  decide
+
+/-- Negation witness (finding F-C18-4): `with_extension` drops a dotted suffix of the module name, so
+with name 200 spelled `m1.v2` (`stem 200 = 1`) the import of `'m1.v2'` loads `m1.koto` although
+`m1.v2.koto` exists; with the repair (`stem = id`) it loads `m1.v2.koto` -/
+theorem resolution_dotted_witness :
+    let fs : FS := fun p => if p = ⟨[], 200, false⟩ ∨ p = ⟨[], 1, false⟩ then some (.ok []) else none
+    findModule { cfgEx with stem := fun n => if n = 200 then 1 else n } fs [] { name := 200, str := true }
+      = some ⟨[], 1, false⟩
+    ∧ findModule cfgEx fs [] { name := 200, str := true } = some ⟨[], 200, false⟩ := by
+  decide
 
 /-- an import statement is resolved in the directory of the frame that executes it, and the imported
 module's own statements run in a frame whose directory is the folder of the module file -/
@@ -83,13 +157,13 @@ theorem resolution_relative (cfg : Cfg) (fs : FS) (fuel : Nat) (p : Path) (s : S
        | some (some e, st3) =>
          some (.error e, emit (.failed p) { st3 with cache := upd st3.cache p none, exports := s.exports })) := rfl
 
-example : (⟨[7], 1, true⟩ : Path).folder = [7, 1] ∧ (⟨[7], 1, false⟩ : Path).folder = [7] := by decide
+example : (⟨[some 7], 1, true⟩ : Path).folder = [7, 1] ∧ (⟨[some 7, some 3, none], 1, false⟩ : Path).folder = [7] := by decide
 
 /-! ## cycle_error — reaching a module that is in progress is an error and changes nothing -/
 
-theorem cycle_error {cfg : Cfg} {fs : FS} {rec : Runner} {fr : Frame} {name : Name} {s s1 : St}
+theorem cycle_error {cfg : Cfg} {fs : FS} {rec : Runner} {fr : Frame} {name : Ref} {s s1 : St}
     {p : Path} {b : Bool}
-    (hnl : nonLocal cfg fr s name = none) (hfm : findModule fs fr.dir name = some p)
+    (hnl : importHit cfg fr s name = none) (hfm : findModule cfg fs fr.dir name = some p)
     (hcm : compileModule fs p s = some (b, s1)) (hprog : s.cache p = some .inProgress) :
     runImport cfg fs rec fr name s = some (.error .recursive, s1)
       ∧ s1.cache = s.cache ∧ s1.exports = s.exports ∧ s1.out = s.out := by
@@ -100,9 +174,9 @@ theorem cycle_error {cfg : Cfg} {fs : FS} {rec : Runner} {fr : Frame} {name : Na
 
 /-- in a reachable runtime the chunk of a module in progress is in the loader cache, so the failing
 import leaves the whole runtime state untouched -/
-theorem cycle_error_state_unchanged {cfg : Cfg} {fs : FS} {rec : Runner} {fr : Frame} {name : Name}
+theorem cycle_error_state_unchanged {cfg : Cfg} {fs : FS} {rec : Runner} {fr : Frame} {name : Ref}
     {s : St} {p : Path}
-    (hnl : nonLocal cfg fr s name = none) (hfm : findModule fs fr.dir name = some p)
+    (hnl : importHit cfg fr s name = none) (hfm : findModule cfg fs fr.dir name = some p)
     (hl : s.loader p = true) (hprog : s.cache p = some .inProgress) :
     runImport cfg fs rec fr name s = some (.error .recursive, s) := by
   have hcm : compileModule fs p s = some (true, s) := by simp [compileModule, hl]
@@ -128,15 +202,15 @@ theorem failure_rollback {fs : FS} {rec : Runner} {p : Path} {s s' : St} {e : Er
     exact ⟨by simp [emit, upd], rfl⟩
 
 /-- the importer's exports map is restored by every import, successful or not -/
-theorem import_restores_exports {cfg : Cfg} {fs : FS} {rec : Runner} {fr : Frame} {name : Name}
+theorem import_restores_exports {cfg : Cfg} {fs : FS} {rec : Runner} {fr : Frame} {name : Ref}
     {s s' : St} {r : Except Err V} (h : runImport cfg fs rec fr name s = some (r, s')) :
     s'.exports = s.exports := runImport_exports h
 
 /-- after the failure the module is importable again: the next import of the same name executes the
 module file afresh (it is neither reported as recursive nor served from the cache) -/
-theorem reimport_after_failure {cfg : Cfg} {fs : FS} {rec : Runner} {fr : Frame} {name : Name}
+theorem reimport_after_failure {cfg : Cfg} {fs : FS} {rec : Runner} {fr : Frame} {name : Ref}
     {s' : St} {p : Path}
-    (hnl : nonLocal cfg fr s' name = none) (hfm : findModule fs fr.dir name = some p)
+    (hnl : importHit cfg fr s' name = none) (hfm : findModule cfg fs fr.dir name = some p)
     (hl : s'.loader p = true) (hnone : s'.cache p = none) :
     runImport cfg fs rec fr name s' = loadModule fs rec p s' := by
   have hcm : compileModule fs p s' = some (true, s') := by simp [compileModule, hl]
@@ -203,9 +277,9 @@ theorem done_stable {cfg : Cfg} {fs : FS} {fuel : Nat} {op : Op} {s s' : St} {r 
 /-- however many modules import it: importing a module that is already imported (from any frame,
 at any depth) returns the one cached exports map and changes nothing at all — no statement of the
 module runs -/
-theorem cached_import {cfg : Cfg} {fs : FS} {rec : Runner} {fr : Frame} {name : Name} {s : St}
+theorem cached_import {cfg : Cfg} {fs : FS} {rec : Runner} {fr : Frame} {name : Ref} {s : St}
     {p : Path} {e : Exports} (hinv : Inv s)
-    (hnl : nonLocal cfg fr s name = none) (hfm : findModule fs fr.dir name = some p)
+    (hnl : importHit cfg fr s name = none) (hfm : findModule cfg fs fr.dir name = some p)
     (hd : s.cache p = some (.done e)) :
     runImport cfg fs rec fr name s = some (.ok (.mref p), s) := by
   have hl : s.loader p = true := hinv.loaded p e hd
@@ -213,7 +287,7 @@ theorem cached_import {cfg : Cfg} {fs : FS} {rec : Runner} {fr : Frame} {name : 
   simp [runImport, hnl, hfm, hcm, hd]
 
 /-- the same for an import statement executed anywhere (nested in other imports, in `@main`, …) -/
-theorem done_stable_import {cfg : Cfg} {fs : FS} {fuel : Nat} {fr : Frame} {name : Name} {s s' : St}
+theorem done_stable_import {cfg : Cfg} {fs : FS} {fuel : Nat} {fr : Frame} {name : Ref} {s s' : St}
     {r : Except Err V} (hinv : Inv s)
     (h : runImport cfg fs (runUnit cfg fs fuel) fr name s = some (r, s')) (p : Path) (e : Exports)
     (hd : s.cache p = some (.done e)) :
@@ -290,7 +364,7 @@ imports included, which swap the exports map and put it back) -/
 theorem export_visible_later {cfg : Cfg} {fs : FS} {rec : Runner} (k : Name) (acts : List TAct)
     {fr fr' : Frame} {s s' : St} {r : Option Err}
     (h : execTActs cfg fs rec acts fr s = some (r, fr', s'))
-    (hk : ∀ a ∈ acts, touchesT cfg.exportAlias fr.exportTop k a = false) :
+    (hk : ∀ a ∈ acts, touchesT cfg.exportAlias cfg.exportStrAlias fr.exportTop k a = false) :
     lookup k s'.exports.data = lookup k s.exports.data :=
   (execTActs_keeps k acts h hk).1
 
@@ -315,7 +389,7 @@ theorem export_visible_importer {fs : FS} {rec : Runner} {p : Path} {s s' : St} 
 -- the host sees m2's exports through `import m2` / `export x = m2`; k60 is the exported 7, not the
 -- reassigned 8
 example : (finalSt cfgEx fsEx 5
-      [{ dir := [], exportTop := false, body := [.act (.importMods [⟨2, none⟩]), .act (.exportId 62 2)] }] init).map
+      [{ dir := [], exportTop := false, body := [.act (.importMods [itm 2]), .act (.exportId 62 2)] }] init).map
       (fun s => (s.exports.data, resolve s.cache (.mref pB)))
     = some ([(62, .mref pB)], some [(60, .int 7), (61, .int 9)]) := by decide
 
@@ -337,8 +411,8 @@ theorem export_pattern_visible {cfg : Cfg} {fs : FS} {rec : Runner} (exp : Bool)
 
 /-- … and, as for single exports, the entries stay until a later statement writes them
 (`export_visible_later` with `touches` extended to patterns), so importers and the host see them -/
-example : touches false false 62 (.assignPat true [.id 63, .mapPat [⟨60, some 60⟩, ⟨61, some 62⟩]] []) = true
-    ∧ touches false false 61 (.assignPat true [.id 63, .mapPat [⟨60, some 60⟩, ⟨61, some 62⟩]] []) = false := by
+example : touches false false false 62 (.assignPat true [.id 63, .mapPat [⟨60, some 60⟩, ⟨61, some 62⟩]] []) = true
+    ∧ touches false false false 61 (.assignPat true [.id 63, .mapPat [⟨60, some 60⟩, ⟨61, some 62⟩]] []) = false := by
   decide
 
 -- m6 does `export k63, {k60, k61 as k62}, _ = 1, m2, 5`: an importer sees all three bound ids
@@ -360,22 +434,23 @@ theorem reassign_keeps_export_seq {cfg : Cfg} {fs : FS} {rec : Runner} (k : Name
     (het : fr.exportTop = false)
     (h1 : execAct cfg fs rec (.export_ k v) fr s = some (none, fr1, s1))
     (h2 : execTActs cfg fs rec post fr1 s1 = some (r, fr', s'))
-    (hpost : ∀ a ∈ post, touchesT cfg.exportAlias false k a = false) :
+    (hpost : ∀ a ∈ post, touchesT cfg.exportAlias cfg.exportStrAlias false k a = false) :
     lookup k s'.exports.data = some (.int v) := by
   simp only [execAct, Option.some.injEq, Prod.mk.injEq, true_and] at h1
   have hfr1 : fr1.exportTop = false := by rw [← h1.1]; exact het
   rw [(execTActs_keeps k post h2 (by rw [hfr1]; exact hpost)).1, ← h1.2]
   simp [setData, lookup_insert_self]
 
-example : touchesT false false 60 (.act (.assign 60 8)) = false := by decide
+example : touchesT false false false 60 (.act (.assign 60 8)) = false := by decide
 
 /-! ## import_forms_bind -/
 
-/-- `import m as n` / `import m`: the local named by the alias (or the module name) holds the imported
-value -/
+/-- `import m as n` / `import m` / `import 'm' as n`: the local named by the alias (or the module name)
+holds the imported value (a string item without `as` binds nothing: `Item.binds`) -/
 theorem import_binds {cfg : Cfg} {fs : FS} {rec : Runner} (it : Item) {fr fr' : Frame} {s s' : St}
+    (hb : it.binds = true)
     (h : execAct cfg fs rec (.importMods [it]) fr s = some (none, fr', s')) :
-    ∃ v s1, importRoot cfg fs rec fr it.name s = some (.ok v, s1)
+    ∃ v s1, importRoot cfg fs rec fr it.toRef s = some (.ok v, s1)
       ∧ lookup it.target fr'.locals = some v := by
   simp only [execAct, importItems] at h
   split at h
@@ -385,10 +460,16 @@ theorem import_binds {cfg : Cfg} {fs : FS} {rec : Runner} (it : Item) {fr fr' : 
     simp only [Option.some.injEq, Prod.mk.injEq, true_and] at h
     refine ⟨v, s1, hir, ?_⟩
     rw [← h.1]
-    simp [Modules.bind, lookup_insert_self]
+    simp [bindItem, hb, Modules.bind, lookup_insert_self]
 
-theorem fromItems_cache (al : Bool) (mv : V) (items : List Item) : ∀ {fr fr' : Frame} {s s' : St} {r : Option Err},
-    fromItems al mv items fr s = (r, fr', s') → s'.cache = s.cache := by
+theorem exportItem_cache (b al sa : Bool) (it : Item) (v : V) (s : St) :
+    (exportItem b al sa it v s).cache = s.cache := by
+  unfold exportItem; split
+  · unfold exportIf; split <;> rfl
+  · rfl
+
+theorem fromItems_cache (al sa : Bool) (mv : V) (items : List Item) : ∀ {fr fr' : Frame} {s s' : St} {r : Option Err},
+    fromItems al sa mv items fr s = (r, fr', s') → s'.cache = s.cache := by
   induction items with
   | nil => intro fr fr' s s' r h; simp only [fromItems, Prod.mk.injEq] at h; rw [← h.2.2]
   | cons it rest ih =>
@@ -396,11 +477,11 @@ theorem fromItems_cache (al : Bool) (mv : V) (items : List Item) : ∀ {fr fr' :
     unfold fromItems at h
     split at h
     · simp only [Prod.mk.injEq] at h; rw [← h.2.2]
-    · rw [ih h]; unfold exportIf; split <;> rfl
+    · rw [ih h, exportItem_cache]
 
-theorem fromItems_locals_other (al : Bool) (mv : V) (n : Name) (items : List Item) :
+theorem fromItems_locals_other (al sa : Bool) (mv : V) (n : Name) (items : List Item) :
     ∀ {fr fr' : Frame} {s s' : St} {r : Option Err},
-    fromItems al mv items fr s = (r, fr', s') → (∀ it ∈ items, it.target ≠ n) →
+    fromItems al sa mv items fr s = (r, fr', s') → (∀ it ∈ items, it.target ≠ n) →
     lookup n fr'.locals = lookup n fr.locals := by
   induction items with
   | nil => intro fr fr' s s' r h _; simp only [fromItems, Prod.mk.injEq] at h; rw [← h.2.1]
@@ -410,15 +491,19 @@ theorem fromItems_locals_other (al : Bool) (mv : V) (n : Name) (items : List Ite
     split at h
     · simp only [Prod.mk.injEq] at h; rw [← h.2.1]
     · rw [ih h (fun i hi => hn i (by simp [hi]))]
-      simp only [Modules.bind]
-      exact lookup_insert_ne _ _ _ _ (fun hh => hn it (by simp) hh.symm)
+      unfold bindItem
+      split
+      · simp only [Modules.bind]
+        exact lookup_insert_ne _ _ _ _ (fun hh => hn it (by simp) hh.symm)
+      · rfl
 
-/-- `from m import a, b as c, …`: every item is looked up in the module value and bound to its alias
-(or its own name); with pairwise distinct targets each local holds its item -/
-theorem from_import_binds (al : Bool) (mv : V) (items : List Item) :
+/-- `from m import a, b as c, 'd' as e, …`: every item is looked up in the module value and bound to
+its alias (or its own name); with pairwise distinct targets each local holds its item -/
+theorem from_import_binds (al sa : Bool) (mv : V) (items : List Item) :
     ∀ {fr fr' : Frame} {s s' : St},
-    fromItems al mv items fr s = (none, fr', s') → (items.map Item.target).Nodup →
-    ∀ it ∈ items, ∃ v, access s.cache mv it.name = .ok v ∧ lookup it.target fr'.locals = some v := by
+    fromItems al sa mv items fr s = (none, fr', s') → (items.map Item.target).Nodup →
+    ∀ it ∈ items, ∃ v, access s.cache mv it.name = .ok v ∧
+      (it.binds = true → lookup it.target fr'.locals = some v) := by
   induction items with
   | nil => intro fr fr' s s' _ _ it hit; cases hit
   | cons it0 rest ih =>
@@ -430,13 +515,12 @@ theorem from_import_binds (al : Bool) (mv : V) (items : List Item) :
     · rename_i v hacc
       rcases List.mem_cons.mp hit with hh | hh
       · subst hh
-        refine ⟨v, hacc, ?_⟩
-        rw [fromItems_locals_other al mv it.target rest h
+        refine ⟨v, hacc, fun hb => ?_⟩
+        rw [fromItems_locals_other al sa mv it.target rest h
           (fun i hi heq => hnd.1 (by rw [← heq]; exact List.mem_map_of_mem hi))]
-        simp [Modules.bind, lookup_insert_self]
-      · have hc : (exportIf fr.exportTop (it0.exportKey al) v s).cache = s.cache := by unfold exportIf; split <;> rfl
-        obtain ⟨v', h1, h2⟩ := ih h hnd.2 it hh
-        exact ⟨v', by rw [← hc]; exact h1, h2⟩
+        simp [bindItem, hb, Modules.bind, lookup_insert_self]
+      · obtain ⟨v', h1, h2⟩ := ih h hnd.2 it hh
+        exact ⟨v', by rw [← exportItem_cache fr.exportTop al sa it0 v s]; exact h1, h2⟩
 
 /-- `from m import *`: the module's entries become visible as non-locals of the frame, the most
 recently added wildcard import first -/
@@ -447,7 +531,7 @@ theorem wildcard_binds (cache : Path → Option Entry) (k : Name) (w : List V) (
 
 /-- the statement itself: after a successful `from m import *` the imported value is among the frame's
 wildcard imports (added at the end unless the same map is already there) -/
-theorem wildcard_import_adds {cfg : Cfg} {fs : FS} {rec : Runner} (m : Name) {fr fr' : Frame} {s s' : St}
+theorem wildcard_import_adds {cfg : Cfg} {fs : FS} {rec : Runner} (m : Ref) {fr fr' : Frame} {s s' : St}
     (h : execAct cfg fs rec (.fromAll m) fr s = some (none, fr', s')) :
     ∃ mv, mv ∈ fr'.wild ∧ (mv ∉ fr.wild → fr'.wild = fr.wild ++ [mv]) := by
   have hw : ∀ mv : V, mv ∈ (addWild mv fr).wild ∧ (mv ∉ fr.wild → (addWild mv fr).wild = fr.wild ++ [mv]) := by
@@ -474,7 +558,7 @@ theorem wildcard_import_adds {cfg : Cfg} {fs : FS} {rec : Runner} (m : Name) {fr
 -- `from m2 import k60 as k62, k61` then `from m1 import *`: k62 = 7, k61 = 9, and k60 resolves
 -- through the wildcard import of m1 (5)
 example : (hostRun cfgEx fsEx 5 { dir := [], exportTop := false, body :=
-      [.act (.fromImport 2 [⟨60, some 62⟩, ⟨61, none⟩]), .act (.fromAll 1),
+      [.act (.fromImport (rf 2) [itm 60 (some 62), itm 61]), .act (.fromAll (rf 1)),
        .act (.show 30 62), .act (.show 31 61), .act (.show 32 60)] } init).map
       (fun r => (r.1, r.2.out.filter Event.obs))
     = some (none, [.print 3, .print 4, .print 5, .print 1, .show 30 (.int 7), .show 31 (.int 9), .show 32 (.int 5)]) := by
@@ -489,7 +573,7 @@ writes `k` again (a later assignment of `k` is covered by applying the theorem t
 theorem top_level_export_final {cfg : Cfg} {fs : FS} {rec : Runner} (k : Name) (v : Int)
     (pre post : List TAct) {fr fr' : Frame} {s s' : St} (het : fr.exportTop = true)
     (h : execTActs cfg fs rec (pre ++ TAct.act (.assign k v) :: post) fr s = some (none, fr', s'))
-    (hpost : ∀ a ∈ post, touchesT cfg.exportAlias true k a = false) :
+    (hpost : ∀ a ∈ post, touchesT cfg.exportAlias cfg.exportStrAlias true k a = false) :
     lookup k s'.exports.data = some (.int v) := by
   obtain ⟨fr1, s1, h1, h2⟩ := execTActs_append pre _ h
   have het1 : fr1.exportTop = true := by rw [execTActs_exportTop pre h1]; exact het
@@ -502,7 +586,7 @@ theorem top_level_export_final {cfg : Cfg} {fs : FS} {rec : Runner} (k : Name) (
 theorem export_final {cfg : Cfg} {fs : FS} {rec : Runner} (k : Name) (v : Int)
     (pre post : List TAct) {fr fr' : Frame} {s s' : St}
     (h : execTActs cfg fs rec (pre ++ TAct.act (.export_ k v) :: post) fr s = some (none, fr', s'))
-    (hpost : ∀ a ∈ post, touchesT cfg.exportAlias fr.exportTop k a = false) :
+    (hpost : ∀ a ∈ post, touchesT cfg.exportAlias cfg.exportStrAlias fr.exportTop k a = false) :
     lookup k s'.exports.data = some (.int v) := by
   obtain ⟨fr1, s1, h1, h2⟩ := execTActs_append pre _ h
   have het1 : fr1.exportTop = fr.exportTop := execTActs_exportTop pre h1
@@ -513,20 +597,21 @@ theorem export_final {cfg : Cfg} {fs : FS} {rec : Runner} (k : Name) (v : Int)
 
 -- non-vacuity: a host script with export_top_level_ids, k60 assigned twice with an import in between
 example : (hostRun cfgEx fsEx 5 { dir := [], exportTop := true, body :=
-      [.act (.assign 60 1), .act (.importMods [⟨1, none⟩]), .act (.assign 60 2), .act (.assign 61 3)] } init).map
+      [.act (.assign 60 1), .act (.importMods [itm 1]), .act (.assign 60 2), .act (.assign 61 3)] } init).map
       (fun r => (r.1, lookup 60 r.2.exports.data, lookup 61 r.2.exports.data))
     = some (none, some (.int 2), some (.int 3)) := by decide
 
 /-- What the code does for *import* bindings under export_top_level_ids: the imported value is exported
-under `Item.exportKey` — for the code as it is (`cfg.exportAlias = false`) that is the name of the
-imported item, also when the statement binds it to an alias. So the top-level binding itself reaches
-the exports map only for items without `as` (or with the repair, `cfg.exportAlias = true`):
-see `top_level_import_export_fixed` and the witness below. -/
+under `Item.exportKey?`. Id items: the code recorded in F-C18-1 (`cfg.exportAlias = false`) used the
+name of the imported item even when the statement binds an alias. String items (`import 'm' as n`,
+`from m import 'k' as n`): the code as it is exports nothing (`cfg.exportStrAlias = false`, finding
+F-C18-5). So the top-level binding itself reaches the exports map only in the cases of
+`top_level_import_export_fixed`; see the witnesses below. -/
 theorem top_level_import_export_partial {cfg : Cfg} {fs : FS} {rec : Runner} (it : Item)
-    {fr fr' : Frame} {s s' : St} (het : fr.exportTop = true)
+    {fr fr' : Frame} {s s' : St} (het : fr.exportTop = true) (hb : it.binds = true)
     (h : execAct cfg fs rec (.importMods [it]) fr s = some (none, fr', s')) :
     ∃ v, lookup it.target fr'.locals = some v
-      ∧ lookup (it.exportKey cfg.exportAlias) s'.exports.data = some v := by
+      ∧ ∀ k, it.exportKey? cfg.exportAlias cfg.exportStrAlias = some k → lookup k s'.exports.data = some v := by
   simp only [execAct, importItems] at h
   split at h
   · cases h
@@ -534,30 +619,43 @@ theorem top_level_import_export_partial {cfg : Cfg} {fs : FS} {rec : Runner} (it
   · rename_i v s1 hir
     simp only [Option.some.injEq, Prod.mk.injEq, true_and] at h
     refine ⟨v, ?_, ?_⟩
-    · rw [← h.1]; simp [Modules.bind, lookup_insert_self]
-    · rw [← h.2]; simp [exportIf, het, setData, lookup_insert_self]
+    · rw [← h.1]; simp [bindItem, hb, Modules.bind, lookup_insert_self]
+    · intro k hk
+      rw [← h.2]; simp [exportItem, hk, exportIf, het, setData, lookup_insert_self]
 
-/-- without an alias, or with the repaired compiler, the binding made by a top-level import is in the
-exports map under the bound name -/
+/-- with the repaired compiler (or for an id item without alias) the binding made by a top-level
+import is in the exports map under the bound name -/
 theorem top_level_import_export_fixed {cfg : Cfg} {fs : FS} {rec : Runner} (it : Item)
-    {fr fr' : Frame} {s s' : St} (het : fr.exportTop = true)
-    (hal : cfg.exportAlias = true ∨ it.as_ = none)
+    {fr fr' : Frame} {s s' : St} (het : fr.exportTop = true) (hb : it.binds = true)
+    (hal : (it.str = false ∧ (cfg.exportAlias = true ∨ it.as_ = none)) ∨ (it.str = true ∧ cfg.exportStrAlias = true))
     (h : execAct cfg fs rec (.importMods [it]) fr s = some (none, fr', s')) :
     ∃ v, lookup it.target fr'.locals = some v ∧ lookup it.target s'.exports.data = some v := by
-  obtain ⟨v, h1, h2⟩ := top_level_import_export_partial it het h
-  refine ⟨v, h1, ?_⟩
-  have : it.exportKey cfg.exportAlias = it.target := by
-    unfold Item.exportKey
-    rcases hal with hal | hal
-    · simp [hal]
-    · cases hc : cfg.exportAlias <;> simp [Item.target, hal]
-  rw [← this]; exact h2
+  obtain ⟨v, h1, h2⟩ := top_level_import_export_partial it het hb h
+  refine ⟨v, h1, h2 it.target ?_⟩
+  unfold Item.exportKey?
+  rcases hal with ⟨hs, hal⟩ | ⟨hs, hsa⟩
+  · rcases hal with hal | hal
+    · simp [hs, hal]
+    · cases hc : cfg.exportAlias <;> simp [hs, Item.target, hal]
+  · have : it.as_.isNone = false := by
+      simp only [Item.binds, hs, Bool.true_and, Bool.not_eq_true'] at hb; exact hb
+    cases ha : it.as_ with
+    | none => rw [ha] at this; cases this
+    | some a => simp [hs, hsa, Item.target, ha]
+
+/-- Negation witness (finding F-C18-5): with export_top_level_ids, `import 'm1' as k64` binds `k64` in
+its own script but exports nothing, so `k64` is lost for the next script of the same runtime -/
+theorem top_level_string_alias_not_exported_witness :
+    (hostRun cfgEx fsEx 5 { dir := [], exportTop := true, body :=
+        [.act (.importMods [{ name := 1, str := true, as_ := some 64 }]), .act (.show 9 64)] } init).map
+      (fun r => (r.1, r.2.out.filter Event.obs, r.2.exports.data))
+    = some (none, [.print 1, .show 9 (.mref pA)], []) := by decide
 
 /-- Negation witness (finding F-C18-1): with export_top_level_ids, the top-level binding made by
 `import m1 as k64` does NOT end up in the exports map — `k64` is absent, `m1` is exported instead —
 so the binding is lost for the next script of the same runtime (REPL line). -/
 theorem top_level_alias_not_exported_witness :
-    (hostRun cfgEx fsEx 5 { dir := [], exportTop := true, body := [.act (.importMods [⟨1, some 64⟩])] } init).map
+    (hostRun cfgEx fsEx 5 { dir := [], exportTop := true, body := [.act (.importMods [itm 1 (some 64)])] } init).map
       (fun r => (r.1, lookup 64 r.2.exports.data, lookup 1 r.2.exports.data))
     = some (none, none, some (.mref pA)) := by decide
 
@@ -570,24 +668,47 @@ theorem rerun_after_failure_witness :
 
 /-! ## fuel_adequate — the fuel never runs out -/
 
-/-- Let `files` list every path at which the file system has a file. Then every fuel above
-`files.length` (the driver uses `files.length + 3`) suffices for every history — the run returns — and
-the result is the same for all such fuels: the "for every fuel … whenever the run returns" form of the
-theorems above loses nothing. (The import nesting depth is bounded by the number of module files that
-are not in progress: each nested execution puts one more file in progress.) -/
-theorem fuel_adequate (cfg : Cfg) (fs : FS) (files : List Path)
+/-- Let `keys` list every cache key that module resolution can produce. Then every fuel above
+`keys.length` suffices for every history — the run returns — and the result is the same for all such
+fuels: the "for every fuel … whenever the run returns" form of the theorems above loses nothing. (The
+import nesting depth is bounded by the number of keys that are not in progress: each nested execution
+puts one more key in progress.) -/
+theorem fuel_adequate (cfg : Cfg) (fs : FS) (keys : List Path)
+    (hkeys : ∀ dir r p, findModule cfg fs dir r = some p → p ∈ keys) (ops : List Op) (n m : Nat)
+    (hn : keys.length < n) (hm : keys.length < m) :
+    runOps cfg fs n ops init = runOps cfg fs m ops init ∧ runOps cfg fs n ops init ≠ none :=
+  runOps_adequate cfg fs keys hkeys n m hn hm ops init inv_init
+
+theorem findModule_exists_canon (cfg : Cfg) (fs : FS) (dir : List Name) (r : Ref) (p : Path)
+    (hc : cfg.canonFile = true) (h : findModule cfg fs dir r = some p) : fs p ≠ none := by
+  simp only [findModule, hc, if_true] at h
+  split at h
+  · rename_i hh
+    simp only [Option.some.injEq] at h; rw [← h]
+    intro hn; rw [hn] at hh; cases hh
+  · split at h
+    · rename_i hh
+      simp only [Option.some.injEq] at h; rw [← h]
+      intro hn; rw [hn] at hh; cases hh
+    · cases h
+
+/-- with the repaired `find_module` the keys are the files: every fuel above the number of files
+suffices (the driver uses a multiple of the number of files, which also covers the unrepaired code for
+the import spellings of a scenario) -/
+theorem fuel_adequate_canonical (cfg : Cfg) (fs : FS) (files : List Path) (hc : cfg.canonFile = true)
     (hfiles : ∀ p, fs p ≠ none → p ∈ files) (ops : List Op) (n m : Nat)
     (hn : files.length < n) (hm : files.length < m) :
     runOps cfg fs n ops init = runOps cfg fs m ops init ∧ runOps cfg fs n ops init ≠ none :=
-  runOps_adequate cfg fs files hfiles n m hn hm ops init inv_init
+  fuel_adequate cfg fs files (fun dir r p h => hfiles p (findModule_exists_canon cfg fs dir r p hc h)) ops n m hn hm
 
 /-- the same for one nested module execution in any reachable runtime -/
-theorem fuel_adequate_unit (cfg : Cfg) (fs : FS) (files : List Path)
-    (hfiles : ∀ p, fs p ≠ none → p ∈ files) (n m : Nat) (hn : files.length < n) (hm : files.length < m)
+theorem fuel_adequate_unit (cfg : Cfg) (fs : FS) (keys : List Path)
+    (hkeys : ∀ dir r p, findModule cfg fs dir r = some p → p ∈ keys) (n m : Nat)
+    (hn : keys.length < n) (hm : keys.length < m)
     (dir : List Name) (body : List TAct) (s : St) (hinv : Inv s) :
     runUnit cfg fs n dir body s = runUnit cfg fs m dir body s ∧ runUnit cfg fs n dir body s ≠ none :=
-  runUnit_adequate cfg fs files hfiles files.length n m hn hm dir body s hinv
-    (by have := avail_le_length files s; omega)
+  runUnit_adequate cfg fs keys hkeys keys.length n m hn hm dir body s hinv
+    (by have := avail_le_length keys s; omega)
 
 -- non-vacuity: the example file system has its files at six paths
 example : ∀ p, fsEx p ≠ none → p ∈ [pA, pAdir, pB, pC, pD, pE] := by
